@@ -103,8 +103,18 @@ impl Chunk {
     pub fn read_data<R: Read + Seek>(&self, reader: &mut R) -> Result<Vec<u8>> {
         self.seek_to_data(reader)?;
 
-        let mut data = vec![0; self.header.size as usize];
-        reader.read_exact(&mut data)?;
+        // The size comes straight from the file: read through a length-limited
+        // adapter instead of allocating it up front
+        let mut data = Vec::new();
+        reader
+            .by_ref()
+            .take(self.header.size as u64)
+            .read_to_end(&mut data)?;
+        if data.len() != self.header.size as usize {
+            return Err(WmoError::Io(std::io::Error::from(
+                std::io::ErrorKind::UnexpectedEof,
+            )));
+        }
 
         Ok(data)
     }
